@@ -124,6 +124,12 @@ def _run_one(crate, harness, timeout, target):
     except OSError:
         pass
     failed_checks = re.findall(r"^Failed Checks: (.*)$", log, flags=re.M)[:8]
+    failed_in = re.findall(r"^Failed Checks: .*\n File: \"[^\"]*\", line \d+, in (.*)$", log, flags=re.M)[:8]
+    if failed_checks and len(failed_in) == len(failed_checks) and all("core::task::Waker as core::ops::Drop" in w for w in failed_in):
+        # groups A/B stub <Waker as Drop>::drop by an unreachable panic ("no task waker is ever stored or dropped while the
+        # DiatomicWaker entry points are stubbed"): code that does store one is outside what this harness models
+        return {"harness": harness, "verdict": "ERROR: harness assumption 'no task waker is stored outside the DiatomicWaker' does not hold for this code", "wall_s": round(time.time() - t0, 1),
+                "checks": checks, "summary": line, "failed_checks": [], "log_tail": log[-600:]}
     return {"harness": harness, "verdict": verdict, "wall_s": round(time.time() - t0, 1), "checks": checks, "summary": line,
             "failed_checks": failed_checks, "log_tail": log[-1500:] if verdict != "SUCCESSFUL" else ""}
 
